@@ -297,7 +297,8 @@ class Contentline(str):
         # TODO: after unicode only, remove this
         # Convert back to unicode, after to_ical encoded it.
         name = to_unicode(name)
-        values = to_unicode(values)
+        # the value is not the start of a stream: a leading U+FEFF is data
+        values = to_unicode(values, encoding=DEFAULT_ENCODING)
         if params:
             params = to_unicode(params.to_ical(sorted=sorted))
             return cls(f'{name};{params}:{values}')
